@@ -79,13 +79,16 @@ def r1_no_data(P, rep, ctx):
     if ok:
         kv, vv = norm(outer[0].stmt.target.elts[0]), norm(outer[0].stmt.target.elts[1])
         inner = [n for n in g.nodes if n.kind == "for" and f.x(n.stmt.iter) in (f"{vv}.attrs.keys()", f"{vv}.attrs", f"list({vv}.attrs)", f"{vv}.attrs.items()")]
-        ok = len(inner) == 1 and f.hit_before(outer[0].idx, nodes=[inner[0].idx], src_edge=(outer[0].idx, "iter")) and f.hit_before(g.exit, nodes=[outer[0].idx])
+        # (an entry without attributes may skip the loop: the skip must be taken only when the iterated collection is empty)
+        no_attrs = f.neg(f.tests(f"{vv}.attrs", f"len({vv}.attrs)", f"{vv}.attrs.keys()", f"len({vv}.attrs.keys())"))
+        ok = len(inner) == 1 and f.hit_before(outer[0].idx, nodes=[inner[0].idx], edges=no_attrs, src_edge=(outer[0].idx, "iter")) and f.hit_before(g.exit, nodes=[outer[0].idx])
     rep.check(ok, "C10.R1", fi.qual, "for every skeleton entry the attribute placeholders are written (no skip before the attribute loop)", fi.loc(), construct="attribute loop on every iteration",
               message="init_stub_skeleton can skip the attribute placeholders of a skeleton entry (e.g. `continue` for an existing group such as the root): the stub lacks attribute names the real record has")
     if kv is None or not inner:
         raise AnalysisError("C10.R1: skeleton loops of init_stub_skeleton not recognised")
     av = norm(inner[0].stmt.target) if isinstance(inner[0].stmt.target, ast.Name) else norm(inner[0].stmt.target.elts[0])
-    astore = [n for n, t in stores if norm(t) == f"{ds}[{kv}].attrs[{av}]"]
+    a_idx = {i for i, v_, b_ in f.stores(f"{ds}[{kv}].attrs[{av}]")}
+    astore = [n for n, t in stores if norm(t) == f"{ds}[{kv}].attrs[{av}]" or n.idx in a_idx]
     rep.check(bool(astore) and f.hit_before(inner[0].idx, nodes=[n.idx for n in astore], src_edge=(inner[0].idx, "iter")), "C10.R1", fi.qual, "attribute placeholders are stored under the entry's own path and attribute name", fi.loc(), construct="attribute placeholder target", message="attribute placeholders are not stored at ds[k].attrs[a]")
     gt = f.tests(f"{vv}.node_type == H5Type.group")
     dt = f.tests(f"{vv}.node_type == H5Type.dataset")
